@@ -4,6 +4,7 @@ import itertools
 from .. import core, grids, datarun
 from ..framework import Model, Stage
 from . import algo_common as ac
+from . import extras_common
 
 PID = "C16"
 RULE = ("case = one operation (construction, remove_elements, remove_elements_rate_presence_lower_than, "
@@ -131,7 +132,7 @@ def _nt_step(rec):
 def models(tier):
     return [Model("MC_DatasetSM", "MC_DatasetSM_3.cfg", "Dataset life cycle: every state reachable by <=2 mutations from "
                   "every dataset of the grid is a dataset, mutators only shrink, unified/projected datasets have the "
-                  "stated shape")]
+                  "stated shape")] + extras_common.models(tier)
 
 
 def stages(tier, rng, only=None):
@@ -149,6 +150,7 @@ def stages(tier, rng, only=None):
                  post=datarun.flatten, chunk=50),
            Stage("rankings", "Trace_Dataset", datarun.run_ranking, lambda: ranking_cases(tier, rng),
                  lambda r: len(r["obs"]["rk"]) >= 2, datarun.init)]
+    out += extras_common.c16_stages(tier, rng)      # specified behaviour outside the listed properties (drift only)
     if tier == "thorough":
         out.append(Stage("transitions4", "Trace_Dataset", datarun.run_session,
                          lambda: single_sessions(grids.datasets(4, 2)[::7], 4), _nt_step, datarun.init,
